@@ -69,8 +69,10 @@ def history_campaign(ctx, out, judge, *, n_hist, n_steps, profiles, labels_sets,
         if ctx.time_left() < 5:
             out.notes.append("time budget reached")
             break
-        prof = profiles[next(rot) % len(profiles)]
-        labels = labels_sets[next(rot) % len(labels_sets)]
+        # (two independent rotations: one shared counter would pair every profile with only some label sets and, for an
+        # even number of profiles, skip every second profile)
+        prof = profiles[h % len(profiles)]
+        labels = labels_sets[(h // len(profiles) + h) % len(labels_sets)]
         cfg = dict(typed=prof.get("typed", False), hook=prof.get("hook"), trees=2)
         r, _ = setup_runner(ctx, cfg)
         log = []
